@@ -79,8 +79,19 @@ def valArg (s : String) : Option Val :=
 def showBlk (b : BlockIdExt) : String :=
   s!"{b.workchain} {b.shard} {b.seqno} {dashHex b.rootHash} {dashHex b.fileHash}"
 
+/-- a table outside the bundled ones, for the correspondence on a `Bool` flags word (`bin(True)` = '0b1'):
+`t.x mode:Bool a:mode.0?int b:mode.1?int = T.X` (id = CRC-32 of the declaration); names: t.x = 1, T.X = 2, mode = 0, a = 3, b = 4. -/
+def boolFlagTable : Table :=
+  ⟨[⟨1, 2, 0x25dfca6a, [⟨0, none, false, .bool⟩, ⟨3, some (0, 0), false, .int⟩, ⟨4, some (0, 1), false, .int⟩], []⟩], 0, 5, []⟩
+
 def handle? (op : String) (args : List String) : Option String :=
   match op, args with
+  | "tldeserx", [d, auto] => some (match hexArg d with
+      | some bs =>
+        match deserialize boolFlagTable (auto == "1") fuel bs with
+        | some (v, n) => s!"ok {showVal v} {n}"
+        | none => "err"
+      | none => "bad-op")
   | "tlser", [ci, v] => some (match ci.toNat?, valArg v with
       | some i, some val =>
         match table.ctors[i]? with
